@@ -502,7 +502,17 @@ def stepCore (cx : Ctx) (w : World) (ws : List String) : StepOut :=
       let (rows, es) := assignS w.rows q (os.ret.getD [])
       { w := { w with regs, rows }, i := { status := "ok", ev := oi.ev ++ ei }, s := { status := "ok", ev := os.ev ++ es } }
     | _, _ => badOp w
-  | ["reserve", r, _] | ["reserve_exact", r, _] | ["shrink_to_fit", r] =>
+  | ["reserve", r, n] | ["reserve_exact", r, n] =>
+    match parseReg r, n.toNat? with
+    | some r, some n =>
+      -- a request of 2^63 or more: every field array of a sized type reports "capacity overflow" (its layout would exceed
+      -- isize::MAX bytes) before anything is allocated; an array of a zero-sized type only when `len + additional` overflows
+      -- usize.  (Smaller requests that exceed the address space abort in the allocator: not generated.)
+      let allZ := cx.kinds.all (· == 'z')
+      let boom (len : Nat) : Bool := n ≥ 2 ^ 63 && (!allZ || len + n ≥ 2 ^ 64)
+      { w, i := { status := if boom (getI r).firstLen then "panic" else "ok" }, s := { status := if boom (getS r).length then "panic" else "ok" } }
+    | _, _ => badOp w
+  | ["shrink_to_fit", r] =>
     match parseReg r with
     | some _ => { w, i := { status := "ok" }, s := { status := "ok" } }
     | none => badOp w
